@@ -25,6 +25,9 @@ func (g *Gen) litOfType(t string, depth int) *Expr {
 			return &Expr{K: "raw", S: g.pick([]string{"true ? null : \"a\"", "false ? \"a\" : null", "null"})}
 		}
 		if depth == 0 && g.P.HalfTyped > 0 && g.chance(0.1) && !g.P.JSONTwin {
+			if g.P.Multibyte && g.chance(0.5) {
+				return &Expr{K: "heredoc", S: "líne öne ✓\nline twö 日本\n"}
+			}
 			return &Expr{K: "heredoc", S: "line one\nline two\n"}
 		}
 		return &Expr{K: "str", S: g.str()}
@@ -538,7 +541,7 @@ func (g *Gen) blockItem(bl *BlockSpec, depth int, pathPrefix string) *Item {
 		}
 		if !bl.Labels[i].DepKey && g.P.Odd && !g.P.JSONTwin && g.chance(0.06) {
 			// labels that need escaping when written or shown
-			v = g.pick([]string{"say \"hi\"", "C:\\temp", "tab\there"}) + fmt.Sprint(g.uniq)
+			v = g.pick([]string{"say \"hi\"", "C:\\temp", "tab\there", "na.b"}) + fmt.Sprint(g.uniq)
 		}
 		bi.Labels = append(bi.Labels, v)
 	}
@@ -612,7 +615,9 @@ func (g *Gen) blockItem(bl *BlockSpec, depth int, pathPrefix string) *Item {
 			case "static":
 				parts = append(parts, s.Name)
 			case "label":
-				if int(s.Index) < len(bi.Labels) && isIdent(bi.Labels[s.Index]) {
+				if int(s.Index) < len(bi.Labels) && (isIdent(bi.Labels[s.Index]) || dottedIdent(bi.Labels[s.Index])) {
+					// (a label like "na.b7" is one step; written as a reference its
+					// text reads as two - a look-alike no declaration answers to)
 					parts = append(parts, bi.Labels[s.Index])
 				} else {
 					ok = false
@@ -642,6 +647,19 @@ func (g *Gen) blockItem(bl *BlockSpec, depth int, pathPrefix string) *Item {
 		}
 	}
 	return &Item{Block: bi}
+}
+
+func dottedIdent(s string) bool {
+	ps := strings.Split(s, ".")
+	if len(ps) < 2 {
+		return false
+	}
+	for _, p := range ps {
+		if !isIdent(p) {
+			return false
+		}
+	}
+	return true
 }
 
 // resolveRefs fills in placeholder references now that all declarations are known.
@@ -779,6 +797,15 @@ func (g *Gen) World() *World {
 				&Item{Block: &BlockItem{Type: "output", Labels: []string{"uses_missing"}, Body: []*Item{{Attr: &AttrItem{Name: "value", Expr: &Expr{K: "ref", S: "var.missing"}}}}}})
 		}
 		g.resolveRefs(p.Files)
+		if g.P.JSONFiles && g.P.JSONTwin {
+			for _, f := range p.Files {
+				if g.chance(0.6) && ItemsJSONExpressible(f.Items) {
+					f.JSON = true
+					f.Name += ".json"
+					f.Layout = []uint64{0, 2}[g.n(2)]
+				}
+			}
+		}
 	}
 	if g.P.ClonePath && len(w.Paths) >= 2 {
 		// e.g. /env/dev and /env/prod holding the same files and pointing into the same module
